@@ -292,14 +292,6 @@ theorem inBase_refuses_with_getBaseEquivalent (S : USys K) (u : UnitV K) (x : K)
       · simp [hm] at h
 
 omit laws in
-theorem getConversionFactor_dim (u v : UnitV K) (f : K × Option K)
-    (h : getConversionFactor pre t u v = .ok f) : u.dim = v.dim := by
-  simp only [getConversionFactor] at h
-  split at h
-  · contradiction
-  · rename_i hd; simpa using hd
-
-omit laws in
 /-- converting a unit to itself is the identity on values -/
 theorem getConversionFactor_self (v : UnitV K) (hv : v.scale ≠ 0) (y : K) :
     ∃ f, getConversionFactor pre t v v = .ok f ∧ applyFactor f y = y := by
@@ -415,22 +407,6 @@ end general
 section init
 variable {K : Type} [Lean.Grind.Field K] [RPow K] [BEq K] [LawfulBEq K]
 
-theorem validateAll_ok (pre : Prefixes K) (t0 : Lut K) (inv : List (String × String)) (reg : Option (Lut K))
-    (m : UMap K) (h : validateAll pre t0 inv reg m = .ok ()) :
-    ∀ p, p ∈ m → validateBase pre t0 inv reg p.1 p.2 = .ok () := by
-  induction m with
-  | nil => intro p hp; cases hp
-  | cons q r ih =>
-    obtain ⟨bd, u⟩ := q
-    simp only [validateAll] at h
-    split at h
-    · contradiction
-    · rename_i hv
-      intro p hp
-      rcases List.mem_cons.mp hp with rfl | hp
-      · exact hv
-      · exact ih h p hp
-
 /-- what an accepted system is: the eight units filed under the eight base dimensions, each of
     which passed the validation; `base_units` is a copy of `units_map` -/
 theorem init_ok (pre : Prefixes K) (t0 : Lut K) (inv : List (String × String)) (reg : Option (Lut K))
@@ -507,65 +483,6 @@ theorem init_requires_base_units (pre : Prefixes K) (t0 : Lut K) (inv : List (St
 structure NamesAgree (pre : Prefixes K) (t : Lut K) (inv : List (String × String)) : Prop where
   keys_unsplit : ∀ s e1, t.find? s = some e1 → splitPrefix pre t s = ("", s)
   inv_id : ∀ s e1, t.find? s = some e1 → invLookup inv s = some s
-
-omit [Lean.Grind.Field K] [RPow K] [BEq K] [LawfulBEq K] in
-theorem splitCandidate_ne (s p w : String) (h : splitCandidate s = some (p, w)) : p ≠ "" := by
-  simp only [splitCandidate] at h
-  split at h
-  · contradiction
-  · split at h
-    · simp only [Option.some.injEq, Prod.mk.injEq] at h; rw [← h.1]; decide
-    · simp only [Option.some.injEq, Prod.mk.injEq] at h
-      rw [← h.1]; intro h2
-      have := congrArg String.toList h2
-      simp at this
-
-omit [Lean.Grind.Field K] [RPow K] [BEq K] [LawfulBEq K] in
-theorem splitPrefix_none (pre : Prefixes K) (t : Lut K) (s : String) (h : (splitPrefix pre t s).1 = "") :
-    splitPrefix pre t s = ("", s) := by
-  simp only [splitPrefix] at h ⊢
-  split
-  · rfl
-  · rename_i p w hc
-    have hp := splitCandidate_ne s p w hc
-    simp only [hc] at h
-    split
-    · rfl
-    · rename_i pv hpv
-      simp only [hpv] at h
-      split
-      · rename_i e he
-        simp only [he] at h
-        split
-        · rename_i hpre; simp only [hpre, if_true] at h; exact absurd h hp
-        · rfl
-      · rfl
-
-omit [Lean.Grind.Field K] [RPow K] [BEq K] [LawfulBEq K] in
-theorem UMap.find?_mem (m : UMap K) (d : Dim) (v : Option (UExpr K)) (h : m.find? d = some v) : (d, v) ∈ m := by
-  induction m with
-  | nil => simp [UMap.find?] at h
-  | cons p r ih =>
-    obtain ⟨d', v'⟩ := p
-    simp only [UMap.find?] at h
-    split at h
-    · rename_i hd; subst hd; cases h; exact List.mem_cons_self ..
-    · exact List.mem_cons_of_mem _ (ih h)
-
-omit [Lean.Grind.Field K] [RPow K] [BEq K] [LawfulBEq K] in
-theorem UMap.find?_of_key (m : UMap K) (d : Dim) (h : d ∈ m.map (·.1)) : ∃ v, m.find? d = some v := by
-  induction m with
-  | nil => simp at h
-  | cons p r ih =>
-    obtain ⟨d', v'⟩ := p
-    simp only [UMap.find?]
-    by_cases hd : d' = d
-    · exact ⟨v', by simp [hd]⟩
-    · simp only [hd, if_false]
-      simp only [List.map_cons, List.mem_cons] at h
-      rcases h with h | h
-      · exact absurd h.symm hd
-      · exact ih h
 
 variable (P : K → Prop) (laws : RPowLaws (RPow.rpow (K := K)) P)
 include laws
